@@ -1,3 +1,4 @@
+import XyzModel.Gen.Extracted
 /-!
 # File-system level model of the crop protocol (C10, C11)
 
@@ -109,6 +110,12 @@ inductive Mode where
   | tmpRename      -- write a private temporary, close it, rename it into place
   | direct         -- create the final name, then write into it
 deriving Repr, DecidableEq
+
+/-- the way `write_to_disk` publishes a file, read off its source on every run (`harness/anchors_fs.py`): it is the
+protocol `tmpRename` only if the object is dumped under another name which is moved onto the final one after the file is
+closed, that name is fresh for every call, and it cannot be taken for a batch or result file -/
+def sourceMode : Mode :=
+  if Gen.publishViaRename && Gen.tmpNamePrivate && Gen.tmpNameHidden then .tmpRename else .direct
 
 /-- grower program counter -/
 inductive GPc where
